@@ -19,6 +19,7 @@ import (
 	"path/filepath"
 	"strconv"
 	"strings"
+	"sync"
 	"testing"
 
 	"go.minekube.com/gate/pkg/edition/bedrock/geyser/floodgate"
@@ -120,6 +121,8 @@ type stats struct {
 	Muts     int            `json:"byte_mutations"`
 	MutOut   map[string]int `json:"mutation_outcomes"`
 	Aliases  int            `json:"mutations_decoding_to_same_bytes"`
+	Held     int            `json:"held_encodings"`
+	ConcW    int            `json:"concurrent_writes"`
 	Writes   int            `json:"writes"`
 	WriteOut map[string]int `json:"write_outcomes"`
 	Samples  []any          `json:"samples"`
@@ -377,6 +380,89 @@ func TestTrace(t *testing.T) {
 		tw.Emit(rec)
 		st.Writes++
 		st.WriteOut[out]++
+	}
+	// 4. encodings kept (not copied) across later encodes on the same Floodgate, decoded afterwards
+	mkData := func(i int) (*floodgate.BedrockData, []string) {
+		f := fieldsFor([]string{"ok", "unicode"}[i%2], i, rng)
+		xuid, _ := strconv.ParseInt(f[2], 10, 64)
+		osID, _ := strconv.Atoi(f[3])
+		ui, _ := strconv.Atoi(f[5])
+		in, _ := strconv.Atoi(f[6])
+		return &floodgate.BedrockData{Version: f[0], Username: f[1], Xuid: xuid, DeviceOS: floodgate.DeviceOSFromID(osID),
+			Language: f[4], UIProfile: ui, InputMode: in, IP: f[7], LinkedPlayer: f[8], Proxy: f[9] == "1",
+			SubscribeID: f[10], VerifyCode: f[11]}, f
+	}
+	for round := 0; round < 6; round++ {
+		key := randBytes([]int{16, 24, 32}[round%3])
+		fg, _ := floodgate.NewFloodgate(key)
+		type kept struct {
+			enc    []byte
+			fields []string
+		}
+		var ks []kept
+		for i := 0; i < 5; i++ {
+			_, f := mkData(round*10 + i)
+			if i%2 == 1 {
+				f[1] = f[1] + " with a longer name" // different lengths
+			}
+			enc, err := fg.Encrypt([]byte(strings.Join(f, "\x00")))
+			if err != nil {
+				t.Fatal(err)
+			}
+			ks = append(ks, kept{enc, f}) // the slice as returned
+		}
+		for _, k := range ks {
+			ro, rf, ok := refDecode(key, "h\x00"+string(k.enc))
+			tw.Emit(tracefmt.Rec{"ev": "write", "kind": "held", "fields": codesList(k.fields), "orig": codes("h"), "nul": false,
+				"out": "ok", "ref": map[string]any{"ok": ok, "orig": codes(ro), "fields": codesList(rf)}})
+			st.Held++
+		}
+	}
+	// 5. several players written at the same time through one Floodgate
+	cw := tracefmt.EnvInt("VERIF_CONC_WRITES", 40)
+	for round := 0; round < cw; round++ {
+		key := randBytes([]int{16, 24, 32}[round%3])
+		fg, _ := floodgate.NewFloodgate(key)
+		const g = 6
+		var wg sync.WaitGroup
+		hosts := make([]string, g)
+		outs := make([]string, g)
+		fs := make([][]string, g)
+		start := make(chan struct{})
+		for k := 0; k < g; k++ {
+			d, f := mkData(round*g + k)
+			fs[k] = f
+			wg.Add(1)
+			go func(k int) {
+				defer wg.Done()
+				defer func() {
+					if p := recover(); p != nil {
+						outs[k] = "panic"
+					}
+				}()
+				<-start
+				for rep := 0; rep < 20; rep++ { // the last one counts; the loop widens the overlap
+					h, err := fg.WriteHostname("mc.example.org", d)
+					if err != nil {
+						outs[k] = "err"
+						return
+					}
+					hosts[k], outs[k] = h, "ok"
+				}
+			}(k)
+		}
+		close(start)
+		wg.Wait()
+		for k := 0; k < g; k++ {
+			rec := tracefmt.Rec{"ev": "write", "kind": "concurrent", "fields": codesList(fs[k]), "orig": codes("mc.example.org"),
+				"nul": false, "out": outs[k]}
+			if outs[k] == "ok" {
+				ro, rf, ok := refDecode(key, hosts[k])
+				rec["ref"] = map[string]any{"ok": ok, "orig": codes(ro), "fields": codesList(rf)}
+			}
+			tw.Emit(rec)
+			st.ConcW++
+		}
 	}
 	if err := tw.Close(); err != nil {
 		t.Fatal(err)
